@@ -587,6 +587,21 @@ def r10(ctx: Ctx) -> None:
             # the tuple whose slots are walked is the module tuple that is appended to the list handed to the model
             appended = atoms_of(c, lambda x: x[0] == "expr" and x[1][0] == "c" and x[1][1][0] == "a" and x[1][1][2] == "append" and x[1][2] == (tup,))
             ok = len(inits) == 1 and inits[0][2] == k_num(1) and len(other_incs) == 1 and bool(appended)
+    # the same numbering written with enumerate(chain(t[1], t[2], t[3], t[4]), start=1)
+    for lp in atoms_of(c, lambda x: x[0] == "for" and len(x) == 5 and x[1][:1] == ("tuple",) and len(x[1][1]) == 2 and x[2][:2] == ("c", ("g", "enumerate"))):
+        it = lp[2]
+        start = dict(it[3]).get("start", it[2][1] if len(it[2]) > 1 else k_num(0))
+        src = it[2][0] if it[2] else None
+        if start == k_num(1) and isinstance(src, tuple) and src[:2] in (("c", ("g", "chain")), ("c", ("a", ("g", "itertools"), "chain"))) and len(src[2]) == 4:
+            tups = {a[1] for a in src[2] if a[0] == "s"}
+            if len(tups) == 1 and [a[2] for a in src[2]] == [k_num(1), k_num(2), k_num(3), k_num(4)]:
+                tup = tups.pop()
+                i = lp[1][1][0]
+                stores = [st for st in lp[3] if st[0] == "set" and len(st) == 3 and st[1][0] == "s"]
+                appended = atoms_of(c, lambda x: x[0] == "expr" and x[1][0] == "c" and x[1][1][0] == "a" and x[1][1][2] == "append" and x[1][2] == (tup,))
+                if len(stores) == 4 and {st[1][2] for st in stores} == {i} and appended:
+                    n += 1
+                    ok = True
     ctx.site(f.where, "table entries numbered by walking slots 1..4 of the module tuple with one counter from 1", slot_loops=n)
     if not ok:
         ctx.report(f.where, "branch-numbering", "the fixing tables do not number the branches by walking the side lists of the module tuple (slots 1..4) with one counter "
